@@ -91,5 +91,40 @@ def country_facts(src, country):
     return facts
 
 
+def env_vars(src):
+    """Names of the environment variables the source tree reads (os.environ.get / os.getenv / os.environ[...] / 'X' in os.environ with a
+    literal name): the environment seam of the tree under test, discovered rather than assumed."""
+    names = set()
+    root = os.path.join(src, "rp2")
+    for dirpath, _, files in os.walk(root):
+        for f in files:
+            if not f.endswith(".py"):
+                continue
+            try:
+                with open(os.path.join(dirpath, f), encoding="utf-8") as fh:
+                    tree = ast.parse(fh.read())
+            except (OSError, SyntaxError):
+                continue
+            for node in ast.walk(tree):
+                lit = None
+                if isinstance(node, ast.Call) and node.args and isinstance(node.args[0], ast.Constant) and isinstance(node.args[0].value, str):
+                    fn = node.func
+                    name = fn.attr if isinstance(fn, ast.Attribute) else (fn.id if isinstance(fn, ast.Name) else "")
+                    owner = ast.unparse(fn.value) if isinstance(fn, ast.Attribute) else ""
+                    if name == "getenv" or (name in ("get", "pop", "setdefault") and owner.endswith("environ")):
+                        lit = node.args[0].value
+                elif isinstance(node, ast.Subscript) and ast.unparse(node.value).endswith("environ") and isinstance(node.slice, ast.Constant) and isinstance(node.slice.value, str):
+                    lit = node.slice.value
+                elif isinstance(node, ast.Compare) and isinstance(node.left, ast.Constant) and isinstance(node.left.value, str) and node.comparators and ast.unparse(node.comparators[0]).endswith("environ"):
+                    lit = node.left.value
+                if lit and lit.isidentifier():
+                    names.add(lit)
+    return sorted(names)
+
+
 def all_facts(src):
-    return {c: country_facts(src, c) for c in COUNTRIES}
+    facts = {c: country_facts(src, c) for c in COUNTRIES}
+    env = env_vars(src)
+    for c in COUNTRIES:
+        facts[c]["env_vars"] = env
+    return facts
